@@ -240,21 +240,45 @@ theorem checkAll_ok {f : Item → Except ErrKind Unit} {xs : List Item} :
 theorem appendCheck_ok_iff {s : Seq} (hf : FlagsOk s) (it : Item) :
     appendCheck s it = .ok () ↔ relOk s.isRoot s.isSr it := by
   unfold appendCheck relOk FlagsOk at *
-  cases hr : s.isRoot <;> cases hs : s.isSr <;> cases hrel : it.rel <;> simp_all
+  cases hr : s.isRoot <;> cases hs : s.isSr <;> cases hrel : it.rel <;> simp_all [Gen.csAppendCheck, unitOf]
 
 theorem appendCheck_err {s : Seq} (it : Item) (e : ErrKind) (h : appendCheck s it = .error e) : e = .attribute := by
   unfold appendCheck at h
-  split at h <;> split at h <;> cases h <;> rfl
+  cases hr : s.isRoot <;> cases hs : s.isSr <;> cases hrel : it.rel <;> simp_all [Gen.csAppendCheck, unitOf]
+
+theorem setitemCheck_ok_iff {s : Seq} (hf : FlagsOk s) (it : Item) :
+    setitemCheck s it = .ok () ↔ relOk s.isRoot s.isSr it := by
+  unfold setitemCheck relOk FlagsOk at *
+  cases hr : s.isRoot <;> cases hs : s.isSr <;> cases hrel : it.rel <;> simp_all [Gen.csSetitemCheck, unitOf]
+
+theorem setitemCheck_err {s : Seq} (it : Item) (e : ErrKind) (h : setitemCheck s it = .error e) : e = .attribute := by
+  unfold setitemCheck at h
+  cases hr : s.isRoot <;> cases hs : s.isSr <;> cases hrel : it.rel <;> simp_all [Gen.csSetitemCheck, unitOf]
 
 theorem insertCheck_ok_iff (s : Seq) (it : Item) :
     insertCheck s it = .ok () ↔ relOk s.isRoot s.isSr it := by
   unfold insertCheck relOk
-  cases hr : s.isRoot <;> cases hs : s.isSr <;> cases hrel : it.rel <;> simp_all
+  cases hr : s.isRoot <;> cases hs : s.isSr <;> cases hrel : it.rel <;> simp_all [Gen.csInsertCheck, unitOf]
+
+theorem insertCheck_err {s : Seq} (it : Item) (e : ErrKind) (h : insertCheck s it = .error e) : e = .attribute := by
+  unfold insertCheck at h
+  cases hr : s.isRoot <;> cases hs : s.isSr <;> cases hrel : it.rel <;> simp_all [Gen.csInsertCheck, unitOf]
 
 theorem ctorCheck_relOk {r sr : Bool} {it : Item} (h : ctorCheck r sr it = .ok ()) : relOk r sr it := by
   unfold ctorCheck at h
   unfold relOk
-  cases r <;> cases sr <;> cases hrel : it.rel <;> simp_all
+  cases r <;> cases sr <;> cases hrel : it.rel <;> cases hc : it.isContainer <;> simp_all [Gen.csCtorCheck, unitOf]
+
+/-- what the constructor accepts (stronger than the rule: root items must be containers, items of non-SR
+sequences must have no relationship type) -/
+theorem ctorCheck_ok_iff (r sr : Bool) (it : Item) :
+    ctorCheck r sr it = .ok () ↔
+      (if r then it.rel = none ∧ it.isContainer = true else if sr then it.rel ≠ none else it.rel = none) := by
+  unfold ctorCheck
+  cases r <;> cases sr <;> cases hrel : it.rel <;> cases hc : it.isContainer <;> simp_all [Gen.csCtorCheck, unitOf]
+
+theorem ctorFlags_ok_iff (r sr : Bool) : (∃ b, Gen.csCtorFlags r sr = .ok b) ↔ (r = true → sr = true) := by
+  cases r <;> cases sr <;> simp [Gen.csCtorFlags]
 
 /-- flags are carried over -/
 def Same (s s' : Seq) : Prop := s'.isRoot = s.isRoot ∧ s'.isSr = s.isSr
@@ -268,21 +292,41 @@ theorem Same.trans {a b c : Seq} (h1 : Same a b) (h2 : Same b c) : Same a c :=
 theorem construct_ok {items : List Item} {r sr : Bool} {s : Seq} (h : construct items r sr = .ok s) :
     s.items = items ∧ s.isRoot = r ∧ s.isSr = sr ∧ WF s ∧ (∀ x ∈ items, ctorCheck r sr x = .ok ()) := by
   unfold construct at h
-  split at h
-  · cases h
-  · rename_i hflags
-    split at h
-    · cases h
-    · rename_i hc
+  cases hfl : Gen.csCtorFlags r sr with
+  | error e => simp only [hfl] at h; cases h
+  | ok b =>
+    simp only [hfl] at h
+    cases hc : checkAll (ctorCheck r sr) items with
+    | error e => simp only [hc] at h; cases h
+    | ok u =>
+      simp only [hc] at h
       cases h
-      have hall := checkAll_ok.mp hc
+      have hall := checkAll_ok.mp (by cases u; exact hc)
       refine ⟨rfl, rfl, rfl, ⟨?_, ?_, ?_⟩, hall⟩
       · have := LutFor_addAll items LutFor_empty
         simpa [Inv] using this
       · intro it hit
         exact ctorCheck_relOk (hall it hit)
-      · intro hr
-        cases sr <;> simp_all
+      · exact (ctorFlags_ok_iff r sr).mp ⟨b, hfl⟩
+
+theorem construct_iff (items : List Item) (r sr : Bool) :
+    (∃ s, construct items r sr = .ok s) ↔
+      ((r = true → sr = true) ∧ ∀ it ∈ items,
+        (if r then it.rel = none ∧ it.isContainer = true else if sr then it.rel ≠ none else it.rel = none)) := by
+  constructor
+  · rintro ⟨s, h⟩
+    obtain ⟨_, _, _, hw, hall⟩ := construct_ok h
+    refine ⟨?_, fun it hit => (ctorCheck_ok_iff r sr it).mp (hall it hit)⟩
+    have := hw.flags
+    obtain ⟨_, h2, h3, _⟩ := construct_ok h
+    unfold FlagsOk at this
+    rw [h2, h3] at this
+    exact this
+  · rintro ⟨hf, hall⟩
+    obtain ⟨b, hb⟩ := (ctorFlags_ok_iff r sr).mpr hf
+    have hc : checkAll (ctorCheck r sr) items = .ok () :=
+      checkAll_ok.mpr (fun it hit => (ctorCheck_ok_iff r sr it).mpr (hall it hit))
+    exact ⟨{ items := items, lut := lutAddAll emptyLut items, isRoot := r, isSr := sr }, by unfold construct; simp only [hb, hc]⟩
 
 /-! ## append / extend / insert -/
 
@@ -394,11 +438,7 @@ theorem insert_refuses (s : Seq) (pos : Int) (it : Item) (hr : ¬ relOk s.isRoot
     SRContentSeq.insert s pos it = (s, some .attribute) := by
   unfold SRContentSeq.insert
   cases hc : insertCheck s it with
-  | error e =>
-    have : e = .attribute := by
-      unfold insertCheck at hc
-      split at hc <;> split at hc <;> cases hc <;> rfl
-    rw [this]
+  | error e => rw [insertCheck_err it e hc]
   | ok u => exact absurd ((insertCheck_ok_iff s it).mp hc) hr
 
 /-! ## `__setitem__` / `__delitem__` -/
@@ -431,28 +471,28 @@ theorem setItem_accepts {s : Seq} (h : WF s) (i : Int) (x : Item) (k : Nat)
     (hr : relOk s.isRoot s.isSr x) (hk : normIdx s.items.length i = .ok k) :
     ∃ s', setItem s i x = (s', none) ∧ s'.items = s.items.set k x ∧ WF s' ∧ Same s s' := by
   unfold setItem
-  rw [(appendCheck_ok_iff h.flags x).mpr hr, hk]
+  rw [(setitemCheck_ok_iff h.flags x).mpr hr, hk]
   have hlt := normIdx_lt hk
   exact commitReplace_wf (rest := s.items.take k ++ s.items.drop (k + 1)) h
     (by simpa using split_at s.items (Nat.le_succ k)) (set_perm s.items x hlt)
     (by intro y hy; simp only [List.mem_singleton] at hy; subst hy; exact hr)
 
 theorem setItem_wf {s : Seq} (h : WF s) (i : Int) (x : Item) : WF (setItem s i x).1 ∧ Same s (setItem s i x).1 := by
-  cases hc : appendCheck s x with
+  cases hc : setitemCheck s x with
   | error e => unfold setItem; rw [hc]; exact ⟨h, Same.refl s⟩
   | ok u =>
     cases hk : normIdx s.items.length i with
     | error e => unfold setItem; rw [hc, hk]; exact ⟨h, Same.refl s⟩
     | ok k =>
-      obtain ⟨s', h1, _, h3, h4⟩ := setItem_accepts h i x k ((appendCheck_ok_iff h.flags x).mp hc) hk
+      obtain ⟨s', h1, _, h3, h4⟩ := setItem_accepts h i x k ((setitemCheck_ok_iff h.flags x).mp hc) hk
       rw [h1]; exact ⟨h3, h4⟩
 
 theorem setItem_refuses {s : Seq} (h : WF s) (i : Int) (x : Item) (hr : ¬ relOk s.isRoot s.isSr x) :
     setItem s i x = (s, some .attribute) := by
   unfold setItem
-  cases hc : appendCheck s x with
-  | error e => rw [appendCheck_err x e hc]
-  | ok u => exact absurd ((appendCheck_ok_iff h.flags x).mp hc) hr
+  cases hc : setitemCheck s x with
+  | error e => rw [setitemCheck_err x e hc]
+  | ok u => exact absurd ((setitemCheck_ok_iff h.flags x).mp hc) hr
 
 /-- an accepted `seq[a:b:c] = xs` -/
 theorem setSlice_accepts {s : Seq} (h : WF s) (a b c : Option Int) (xs : List Item) (sel : Sel) (items' : List Item)
@@ -460,13 +500,13 @@ theorem setSlice_accepts {s : Seq} (h : WF s) (a b c : Option Int) (xs : List It
     (hset : setSel s.items xs sel = .ok items') :
     ∃ s', setSlice s a b c xs = (s', none) ∧ s'.items = items' ∧ WF s' ∧ Same s s' := by
   unfold setSlice
-  simp only [checkAll_ok.mpr (fun x hx => (appendCheck_ok_iff h.flags x).mpr (hr x hx)), hsel, hset]
+  simp only [checkAll_ok.mpr (fun x hx => (setitemCheck_ok_iff h.flags x).mpr (hr x hx)), hsel, hset]
   exact commitReplace_wf (rest := delSel s.items sel) h
     (getSel_delSel_perm s.items sel (resolveSlice_plain hsel)) (setSel_perm s.items xs sel items' hset) hr
 
 theorem setSlice_wf {s : Seq} (h : WF s) (a b c : Option Int) (xs : List Item) :
     WF (setSlice s a b c xs).1 ∧ Same s (setSlice s a b c xs).1 := by
-  cases hc : checkAll (appendCheck s) xs with
+  cases hc : checkAll (setitemCheck s) xs with
   | error e => unfold setSlice; rw [hc]; exact ⟨h, Same.refl s⟩
   | ok u =>
     cases hsel : resolveSlice s.items.length a b c with
@@ -476,17 +516,17 @@ theorem setSlice_wf {s : Seq} (h : WF s) (a b c : Option Int) (xs : List Item) :
       | error e => unfold setSlice; simp only [hc, hsel, hset]; exact ⟨h, Same.refl s⟩
       | ok items' =>
         obtain ⟨s', h1, _, h3, h4⟩ := setSlice_accepts h a b c xs sel items'
-          (fun x hx => (appendCheck_ok_iff h.flags x).mp (checkAll_ok.mp hc x hx)) hsel hset
+          (fun x hx => (setitemCheck_ok_iff h.flags x).mp (checkAll_ok.mp hc x hx)) hsel hset
         rw [h1]; exact ⟨h3, h4⟩
 
 theorem setSlice_refuses {s : Seq} (h : WF s) (a b c : Option Int) (xs : List Item)
     (hr : ∃ x ∈ xs, ¬ relOk s.isRoot s.isSr x) : ∃ e, setSlice s a b c xs = (s, some e) := by
   unfold setSlice
-  cases hc : checkAll (appendCheck s) xs with
+  cases hc : checkAll (setitemCheck s) xs with
   | error e => exact ⟨e, rfl⟩
   | ok u =>
     obtain ⟨x, hx, hbad⟩ := hr
-    exact absurd ((appendCheck_ok_iff h.flags x).mp (checkAll_ok.mp hc x hx)) hbad
+    exact absurd ((setitemCheck_ok_iff h.flags x).mp (checkAll_ok.mp hc x hx)) hbad
 
 theorem delItem_accepts {s : Seq} (h : WF s) (i : Int) (k : Nat) (hk : normIdx s.items.length i = .ok k) :
     ∃ s', delItem s i = (s', none) ∧ s'.items = s.items.take k ++ s.items.drop (k + 1) ∧ WF s' ∧ Same s s' := by
@@ -532,13 +572,10 @@ theorem contains_spec {s : Seq} (h : Inv s) (x : Item) : contains s x = decide (
 theorem collect_spec {s : Seq} (h : WF s) (xs : List Item) (hr : ∀ x ∈ xs, relOk s.isRoot s.isSr x) :
     ∃ r, collect s xs = .ok r ∧ r.items = xs ∧ WF r ∧ Same s r := by
   unfold collect
-  have hflag : (s.isRoot && !s.isSr) = false := by
-    have := h.flags
-    unfold FlagsOk at this
-    cases hr : s.isRoot <;> cases hs : s.isSr <;> simp_all
+  obtain ⟨b, hflag⟩ := (ctorFlags_ok_iff s.isRoot s.isSr).mpr h.flags
   have hc : construct [] s.isRoot s.isSr
       = .ok { items := [], lut := lutAddAll emptyLut [], isRoot := s.isRoot, isSr := s.isSr } := by
-    unfold construct; rw [hflag]; simp [checkAll]
+    unfold construct; simp only [hflag, checkAll]
   rw [hc]
   obtain ⟨_, _, _, hw, _⟩ := construct_ok hc
   obtain ⟨r, h1, h2, h3, h4⟩ := extend_accepts hw xs hr
